@@ -22,6 +22,7 @@
 From BP Require Import Base.Prelude Spec.PyImport Spec.PyImportLocals Model.Importing Model.C13Hints.
 From BP Require Import Proofs.ImportingP Proofs.ImportingP2 Proofs.ImportingP3 Proofs.ImportingP4 Proofs.ImportingP5 Proofs.ImportingP6.
 From BP Require Import Proofs.ImportingP7 Proofs.ImportingP8 Proofs.ImportingP9 Proofs.ImportingP10.
+From BP Require Import Proofs.C13GapA Proofs.C13GapB.
 From BP Require gen.C13Tables Model.Casing.
 
 (* The main theorem: EVERY pair of package paths, of any depth (same / descendant / ancestor / root / sibling / cousin are
@@ -603,3 +604,279 @@ Example C13_wellknown_locals_nonvacuous :
     (get_type_reference PAS FLD OPT (py_join b_dot [sa]) (b_dot :: py_join b_dot (google_protobuf ++ [t_Struct])) true true)
     = Some (VCls (lib_path true) (PAS t_Struct)).
 Proof. exact wellknown_locals_example. Qed.
+
+(* ======================================================================================================================
+   Gap closing against the property text (clause table: header of Proofs/C13GapA.v)
+   ====================================================================================================================== *)
+
+(* "exactly the class": a reference denotes at most one value ... *)
+Theorem C13_denotes_functional :
+  forall (w : world) (P : list (list byte)) (ref : list byte * option (list byte)) (v1 v2 : value),
+    denotes w P ref v1 -> denotes w P ref v2 -> v1 = v2.
+Proof. exact denotes_functional. Qed.
+Print Assumptions C13_denotes_functional.
+
+(* ... so under the hypotheses of C13_resolves the values it denotes are EXACTLY the target class (non-vacuity: C13_resolves_nonvacuous) *)
+Theorem C13_resolves_only :
+  forall (cls_name snake optional : list byte -> list byte),
+    (forall s, ident_chars (snake s)) ->
+  forall (w : world) (root cur tgt : list (list byte)) (T : list byte) (unwrap pydantic : bool) (v : value),
+    root <> [] ->
+    pkg_okb cur = true -> pkg_okb tgt = true -> type_okb T = true ->
+    path_eqb (firstn 1 tgt) [s_betterproto] = false ->
+    path_eqb tgt google_protobuf = false ->
+    identb (cls_name T) = true ->
+    world_has w root tgt (cls_name T) ->
+    (denotes w (root ++ cur)
+       (get_type_reference cls_name snake optional (py_join b_dot cur) (b_dot :: py_join b_dot (tgt ++ [T])) unwrap pydantic) v
+     <-> v = VCls (root ++ tgt) (cls_name T)).
+Proof. exact resolves_only. Qed.
+Print Assumptions C13_resolves_only.
+
+(* "the class generated for THAT type": two targets that get one (annotation, import line) pair from one module are one target *)
+Theorem C13_resolves_injective :
+  forall (cls_name snake optional : list byte -> list byte),
+    (forall s, ident_chars (snake s)) ->
+  forall (w : world) (root cur tgt1 tgt2 : list (list byte)) (T1 T2 : list byte) (u1 u2 pydantic : bool),
+    root <> [] -> pkg_okb cur = true ->
+    pkg_okb tgt1 = true -> type_okb T1 = true -> path_eqb (firstn 1 tgt1) [s_betterproto] = false ->
+    path_eqb tgt1 google_protobuf = false -> identb (cls_name T1) = true -> world_has w root tgt1 (cls_name T1) ->
+    pkg_okb tgt2 = true -> type_okb T2 = true -> path_eqb (firstn 1 tgt2) [s_betterproto] = false ->
+    path_eqb tgt2 google_protobuf = false -> identb (cls_name T2) = true -> world_has w root tgt2 (cls_name T2) ->
+    get_type_reference cls_name snake optional (py_join b_dot cur) (b_dot :: py_join b_dot (tgt1 ++ [T1])) u1 pydantic
+    = get_type_reference cls_name snake optional (py_join b_dot cur) (b_dot :: py_join b_dot (tgt2 ++ [T2])) u2 pydantic ->
+    tgt1 = tgt2 /\ cls_name T1 = cls_name T2.
+Proof. exact resolves_injective. Qed.
+Print Assumptions C13_resolves_injective.
+
+(* C13_resolves composed with C13_output_tree: in the world made of the plugin's OWN output files every ordered pair of
+   packages resolves; the world hypothesis is gone ([defs_okb]: every defined class name starts upper-case / with a digit) *)
+Theorem C13_generated_tree_resolves :
+  forall (cls_name snake optional : list byte -> list byte),
+    (forall s, ident_chars (snake s)) ->
+  forall root pkgs defs libs (cur tgt : list (list byte)) classes (T : list byte) (unwrap pydantic : bool),
+    root <> [] ->
+    pkg_okb cur = true -> pkg_okb tgt = true -> type_okb T = true ->
+    path_eqb (firstn 1 tgt) [s_betterproto] = false ->
+    path_eqb tgt google_protobuf = false ->
+    identb (cls_name T) = true ->
+    In (py_join b_dot tgt) pkgs -> In (root ++ tgt, classes) defs -> In (cls_name T) classes ->
+    defs_okb defs = true ->
+    denotes (world_of root pkgs defs libs) (root ++ cur)
+      (get_type_reference cls_name snake optional (py_join b_dot cur) (b_dot :: py_join b_dot (tgt ++ [T])) unwrap pydantic)
+      (VCls (root ++ tgt) (cls_name T)).
+Proof. exact generated_tree_resolves. Qed.
+Print Assumptions C13_generated_tree_resolves.
+
+(* "also when packages depend on each other circularly": both directions in ONE generated tree (final bindings; the
+   initialisation ORDER of circular packages is not in Spec/PyImport.v - real generation exercises it) *)
+Theorem C13_generated_tree_circular :
+  forall (cls_name snake optional : list byte -> list byte),
+    (forall s, ident_chars (snake s)) ->
+  forall root pkgs defs libs (pa pb : list (list byte)) clsa clsb (Ta Tb : list byte) (ua ub pydantic : bool),
+    root <> [] ->
+    pkg_okb pa = true -> pkg_okb pb = true -> type_okb Ta = true -> type_okb Tb = true ->
+    path_eqb (firstn 1 pa) [s_betterproto] = false -> path_eqb (firstn 1 pb) [s_betterproto] = false ->
+    path_eqb pa google_protobuf = false -> path_eqb pb google_protobuf = false ->
+    identb (cls_name Ta) = true -> identb (cls_name Tb) = true ->
+    In (py_join b_dot pa) pkgs -> In (py_join b_dot pb) pkgs ->
+    In (root ++ pa, clsa) defs -> In (root ++ pb, clsb) defs -> In (cls_name Ta) clsa -> In (cls_name Tb) clsb ->
+    defs_okb defs = true ->
+    denotes (world_of root pkgs defs libs) (root ++ pa)
+      (get_type_reference cls_name snake optional (py_join b_dot pa) (b_dot :: py_join b_dot (pb ++ [Tb])) ub pydantic)
+      (VCls (root ++ pb) (cls_name Tb)) /\
+    denotes (world_of root pkgs defs libs) (root ++ pb)
+      (get_type_reference cls_name snake optional (py_join b_dot pb) (b_dot :: py_join b_dot (pa ++ [Ta])) ua pydantic)
+      (VCls (root ++ pa) (cls_name Ta)).
+Proof. exact generated_tree_circular. Qed.
+Print Assumptions C13_generated_tree_circular.
+
+Example C13_generated_tree_nonvacuous :
+  [sr] <> [] /\ pkg_okb [sa; sb] = true /\ pkg_okb [sc; sd] = true /\ type_okb t_T = true /\ type_okb t_Foo_Bar = true /\
+  path_eqb (firstn 1 [sc; sd]) [s_betterproto] = false /\ path_eqb [sc; sd] google_protobuf = false /\
+  path_eqb (firstn 1 [sa; sb]) [s_betterproto] = false /\ path_eqb [sa; sb] google_protobuf = false /\
+  identb (CLS t_T) = true /\ identb (CLS t_Foo_Bar) = true /\
+  In (py_join b_dot [sc; sd]) co_pkgs /\ In (py_join b_dot [sa; sb]) co_pkgs /\
+  In ([sr] ++ [sc; sd], [CLS t_T]) co_defs /\ In ([sr] ++ [sa; sb], [CLS t_T; CLS t_Foo_Bar]) co_defs /\
+  In (CLS t_T) [CLS t_T] /\ In (CLS t_Foo_Bar) [CLS t_T; CLS t_Foo_Bar] /\
+  defs_okb co_defs = true /\
+  eval_ref (world_of [sr] co_pkgs co_defs []) [sr; sa; sb] (gtr [sa; sb] [sc; sd] t_T) = Some (VCls [sr; sc; sd] (CLS t_T)) /\
+  eval_ref (world_of [sr] co_pkgs co_defs []) [sr; sc; sd] (gtr [sc; sd] [sa; sb] t_Foo_Bar) = Some (VCls [sr; sa; sb] (CLS t_Foo_Bar)) /\
+  gtr [sa; sb] [sc; sd] t_T <> gtr [sa; sb] [sa] t_T.
+Proof. exact generated_tree_example. Qed.
+
+(* "a field, map value, oneof member or RPC type": the sites differ by [unwrap] only; outside google.protobuf neither the site
+   nor the typing option changes the annotation or the import line *)
+Theorem C13_site_independent :
+  forall (cls_name snake optional : list byte -> list byte) (pkg : list byte) (tgt : list (list byte)) (T : list byte) (u1 u2 p1 p2 : bool),
+    pkg_okb tgt = true -> type_okb T = true -> path_eqb tgt google_protobuf = false ->
+    get_type_reference cls_name snake optional pkg (b_dot :: py_join b_dot (tgt ++ [T])) u1 p1
+    = get_type_reference cls_name snake optional pkg (b_dot :: py_join b_dot (tgt ++ [T])) u2 p2.
+Proof. exact site_independent. Qed.
+Print Assumptions C13_site_independent.
+
+Example C13_site_independent_nonvacuous :
+  pkg_okb [sc; sd] = true /\ type_okb t_Foo_Bar = true /\ path_eqb [sc; sd] google_protobuf = false /\
+  snd (gtr [sa; sb] [sc; sd] t_Foo_Bar) <> None /\
+  map (fun up => get_type_reference CLS SNK OPT (py_join b_dot [sa; sb]) (b_dot :: py_join b_dot ([sc; sd] ++ [t_Foo_Bar])) (fst up) (snd up))
+      [(true, true); (false, true); (false, false)] = repeat (gtr [sa; sb] [sc; sd] t_Foo_Bar) 3.
+Proof. exact site_independent_example. Qed.
+
+(* well-known types with the casing model as [snake]: the alias hypothesis of C13_wellknown is discharged (both typing options) *)
+Theorem C13_wellknown_casing_model :
+  forall (cls_name optional : list byte -> list byte) (w : world) (P cur : list (list byte)) (T : list byte) (unwrap pydantic : bool),
+    pkg_okb cur = true -> type_okb T = true ->
+    path_eqb cur google_protobuf = false ->
+    (if unwrap then early_return optional (b_dot :: py_join b_dot (google_protobuf ++ [T])) else None) = None ->
+    identb (cls_name T) = true ->
+    w_pkg w (lib_path pydantic) = true -> w_cls w (lib_path pydantic) (cls_name T) = true ->
+    denotes w P
+      (get_type_reference cls_name Casing.safe_snake_case optional (py_join b_dot cur) (b_dot :: py_join b_dot (google_protobuf ++ [T])) unwrap pydantic)
+      (VCls (lib_path pydantic) (cls_name T)).
+Proof. exact wellknown_casing_model. Qed.
+Print Assumptions C13_wellknown_casing_model.
+
+(* rpc input / output sites never unwrap: EVERY google.protobuf type - wrappers, Timestamp, Duration included - denotes the bundled class *)
+Theorem C13_wellknown_rpc :
+  forall (cls_name optional : list byte -> list byte) (w : world) (P cur : list (list byte)) (T : list byte) (pydantic : bool),
+    pkg_okb cur = true -> type_okb T = true ->
+    path_eqb cur google_protobuf = false ->
+    identb (cls_name T) = true ->
+    w_pkg w (lib_path pydantic) = true -> w_cls w (lib_path pydantic) (cls_name T) = true ->
+    denotes w P
+      (get_type_reference cls_name Casing.safe_snake_case optional (py_join b_dot cur) (b_dot :: py_join b_dot (google_protobuf ++ [T])) false pydantic)
+      (VCls (lib_path pydantic) (cls_name T)).
+Proof. exact wellknown_rpc. Qed.
+Print Assumptions C13_wellknown_rpc.
+
+(* exactness of `cur <> google.protobuf` in C13_wellknown: compiled inside google.protobuf the reference is the bare class name,
+   no import - it denotes the class of the tree being generated, not the bundled one *)
+Theorem C13_wellknown_inside_google :
+  forall (cls_name snake optional : list byte -> list byte) (T : list byte) (unwrap pydantic : bool),
+    type_okb T = true ->
+    (if unwrap then early_return optional (b_dot :: py_join b_dot (google_protobuf ++ [T])) else None) = None ->
+    get_type_reference cls_name snake optional (py_join b_dot google_protobuf) (b_dot :: py_join b_dot (google_protobuf ++ [T])) unwrap pydantic
+    = (quoted (cls_name T), None).
+Proof. exact wellknown_inside_google. Qed.
+Print Assumptions C13_wellknown_inside_google.
+
+(* which source types a field site unwraps: exactly the keys of the regenerated WRAPPER_TYPES and the two time types *)
+Theorem C13_early_return_iff :
+  forall (optional : list byte -> list byte) (k : list byte),
+    early_return optional k <> None <->
+    (tbl_find C13Tables.wrapper_types k <> None \/ k = s_duration \/ k = s_timestamp).
+Proof. exact early_return_iff. Qed.
+Print Assumptions C13_early_return_iff.
+
+Example C13_wellknown_rpc_nonvacuous :
+  pkg_okb [sa] = true /\ type_okb t_Int32Value = true /\ path_eqb [sa] google_protobuf = false /\ identb (PAS t_Int32Value) = true /\
+  (forall pyd, w_pkg (w_wrap pyd) (lib_path pyd) = true /\ w_cls (w_wrap pyd) (lib_path pyd) (PAS t_Int32Value) = true) /\
+  (forall pyd, snd (get_type_reference PAS FLD OPT (py_join b_dot [sa]) (b_dot :: py_join b_dot (google_protobuf ++ [t_Int32Value])) true pyd) = None) /\
+  (forall pyd, eval_ref (w_wrap pyd) [sr; sa]
+     (get_type_reference PAS FLD OPT (py_join b_dot [sa]) (b_dot :: py_join b_dot (google_protobuf ++ [t_Int32Value])) false pyd)
+     = Some (VCls (lib_path pyd) (PAS t_Int32Value))) /\
+  early_return OPT (b_dot :: py_join b_dot (google_protobuf ++ [t_Int32Value])) <> None /\
+  early_return OPT (b_dot :: py_join b_dot (google_protobuf ++ [t_Struct])) = None /\
+  type_okb t_Struct = true.
+Proof. exact wellknown_rpc_example. Qed.
+
+(* "message, nested message or enum": the hypothesis of C13_class_name discharged for the casing model's pascal_case, for EVERY
+   nested path (the dotted reference name and traverse's flattened name have the same word list) *)
+Theorem C13_class_name_casing_model :
+  forall nested : list (list byte), PAS (dotted_type nested) = defined_class_name PAS nested.
+Proof. exact class_name_casing_model. Qed.
+Print Assumptions C13_class_name_casing_model.
+
+(* protoc-style names (every segment upper-case initial, no newline) satisfy type_okb at any nesting depth *)
+Theorem C13_nested_type_ok :
+  forall nested : list (list byte),
+    nested <> [] -> forallb nested_segb nested = true -> type_okb (dotted_type nested) = true.
+Proof. exact nested_type_ok. Qed.
+Print Assumptions C13_nested_type_ok.
+
+Example C13_class_name_nonvacuous :
+  [t_Foo; t_Bar] <> [] /\ forallb nested_segb [t_Foo; t_Bar] = true /\ dotted_type [t_Foo; t_Bar] = t_Foo_Bar /\
+  PAS (dotted_type [t_Foo; t_Bar]) = t_FooBar /\ defined_class_name PAS [t_Foo; t_Bar] = t_FooBar /\
+  flat_name [] [t_Foo; t_Bar] = [x5f; x46; x6f; x6f; x5f; x42; x61; x72].
+Proof. exact class_name_example. Qed.
+
+(* exactness of the clause "no segment is `betterproto`" of plain_segb (C13_coexist): package x referencing
+   x.betterproto.lib.google.protobuf.T and google.protobuf.Struct - one alias, two different import lines *)
+Theorem C13_wellknown_desc_clash_refuted :
+  exists (cur tgt : list (list byte)) (T T' : list byte) s1 s2,
+    plain_pkgb cur = true /\ pkg_okb tgt = true /\ type_okb T = true /\ type_okb T' = true /\
+    forallb (fun s => plain_segb s || bytes_eqb s s_betterproto) tgt = true /\ plain_pkgb tgt = false /\
+    path_eqb (firstn 1 tgt) [s_betterproto] = false /\ path_eqb tgt google_protobuf = false /\
+    identb (PAS T) = true /\ cls_startb (PAS T) = true /\
+    rel_of cur tgt = RDesc /\
+    snd (gtr_m cur tgt T false) = Some s1 /\ snd (gtr_wk cur T') = Some s2 /\
+    alias_of s1 = Some s_bplgp /\ alias_of s2 = Some s_bplgp /\ s1 <> s2.
+Proof. exact wellknown_desc_clash_refuted. Qed.
+Print Assumptions C13_wellknown_desc_clash_refuted.
+
+(* ---- second group (Proofs/C13GapB.v) ---- *)
+(* "same package, ancestor, descendant, sibling, cousin, or no package": the five values of the dispatch [rel_of] are exactly these
+   positions (the right-hand sides are mutually exclusive and exhaustive) *)
+Theorem C13_rel_of_spec :
+  forall cur tgt : list (list byte),
+    match rel_of cur tgt with
+    | RSame => tgt = cur
+    | RDesc => exists rest, rest <> [] /\ tgt = cur ++ rest
+    | RAnc => tgt <> [] /\ exists rest, rest <> [] /\ cur = tgt ++ rest
+    | RRoot => tgt = [] /\ cur <> []
+    | RCousin => tgt <> cur /\ (forall rest, tgt <> cur ++ rest) /\ (forall rest, cur <> tgt ++ rest)
+    end.
+Proof. exact rel_of_spec. Qed.
+Print Assumptions C13_rel_of_spec.
+
+Theorem C13_sibling_is_cousin :
+  forall (parent : list (list byte)) (x y : list byte), x <> y -> rel_of (parent ++ [x]) (parent ++ [y]) = RCousin.
+Proof. exact sibling_is_cousin. Qed.
+Print Assumptions C13_sibling_is_cousin.
+
+Example C13_rel_of_nonvacuous :
+  rel_of [sa; sb] [sa; sb] = RSame /\ rel_of [sa] [sa; sb] = RDesc /\ rel_of [sa; sb] [sa] = RAnc /\
+  rel_of [sa; sb] [] = RRoot /\ rel_of [] [sa] = RDesc /\ rel_of [sa; sb] [sa; sc] = RCousin /\ rel_of [sa; sb] [sc; sd] = RCousin /\
+  sb <> sc.
+Proof. exact rel_of_example. Qed.
+
+(* C13_coexist composed with C13_output_tree: all references of one module at once, in the world of the plugin's own output
+   files - no world hypothesis, cls_ok reduced to identb + [defs_okb] (non-vacuity: C13_coexist_nonvacuous is such a tree, w_co) *)
+Theorem C13_generated_tree_coexist :
+  forall (cls_name snake optional : list byte -> list byte),
+    (forall s, ident_chars (snake s)) ->
+    (forall l, l <> [] -> forallb plain_segb l = true -> snake (py_join b_dot l) = py_join b_us l) ->
+  forall root pkgs defs libs (cur : list (list byte)) (pydantic : bool) (refs : list reference) (order : list (list byte)),
+    root <> [] -> plain_pkgb cur = true -> defs_okb defs = true ->
+    (forall r, In r refs ->
+       plain_pkgb (r_tgt r) = true /\ type_okb (r_T r) = true /\ path_eqb (r_tgt r) google_protobuf = false /\
+       identb (cls_name (r_T r)) = true /\ In (py_join b_dot (r_tgt r)) pkgs /\
+       exists classes, In (root ++ r_tgt r, classes) defs /\ In (cls_name (r_T r)) classes) ->
+    (forall s, In s order <-> exists r, In r refs /\ snd (ref_of cls_name snake optional cur pydantic r) = Some s) ->
+    exists e, exec_all (world_of root pkgs defs libs) (root ++ cur) order = Some e /\
+      forall r, In r refs ->
+        resolve_annotation (world_of root pkgs defs libs) (root ++ cur) e (fst (ref_of cls_name snake optional cur pydantic r))
+        = Some (VCls (root ++ r_tgt r) (cls_name (r_T r))).
+Proof. exact generated_tree_coexist. Qed.
+Print Assumptions C13_generated_tree_coexist.
+
+(* the converse of C13_wellknown_desc_clash_refuted: over plain segments NO import line of an ordinary reference binds the alias of
+   the well-known import (either typing option), so adding well-known references to a module rebinds none of its aliases *)
+Theorem C13_wellknown_alias_no_clash :
+  forall (cls_name snake optional : list byte -> list byte),
+    (forall l, l <> [] -> forallb plain_segb l = true -> snake (py_join b_dot l) = py_join b_us l) ->
+  forall (cur tgt : list (list byte)) (T : list byte) (u pydantic pydantic' : bool) (s : list byte),
+    plain_pkgb cur = true -> plain_pkgb tgt = true -> type_okb T = true -> cls_ok (cls_name T) ->
+    path_eqb tgt google_protobuf = false ->
+    snd (get_type_reference cls_name snake optional (py_join b_dot cur) (b_dot :: py_join b_dot (tgt ++ [T])) u pydantic) = Some s ->
+    alias_of s <> Some (py_join b_us (lib_path pydantic')).
+Proof. exact wellknown_alias_no_clash. Qed.
+Print Assumptions C13_wellknown_alias_no_clash.
+
+Example C13_wellknown_alias_nonvacuous :
+  (forall pyd, FLD (py_join b_dot (lib_path pyd)) = py_join b_us (lib_path pyd)) /\
+  plain_pkgb [sa; sb] = true /\ plain_pkgb [sc; sd] = true /\ type_okb t_T = true /\ cls_ok (CLS t_T) /\
+  path_eqb [sc; sd] google_protobuf = false /\
+  alias_of (imp_of (gtr [sa; sb] [sc; sd] t_T)) = Some [x5f; x5f; x63; x5f; x64; x5f; x5f] /\
+  (forall s, In s co_order -> In s co_order).
+Proof. split; [exact lib_alias_casing_model | exact wellknown_alias_no_clash_example]. Qed.
